@@ -99,7 +99,7 @@ class Args(object):
         argument = self._fmt.get_argument(name)
 
         if argument.name in self._arguments:
-            return self._arguments[name]
+            return self._arguments[argument.name]
 
         return argument.default
 
@@ -133,6 +133,9 @@ class Args(object):
         return self
 
     def is_argument_set(self, name):  # type: (Union[str, int]) -> bool
+        if isinstance(name, int) and self._fmt.has_argument(name):
+            name = self._fmt.get_argument(name).name
+
         return name in self._arguments
 
     def is_argument_defined(self, name):  # type: (Union[str, int]) -> bool
